@@ -11,6 +11,15 @@ tie    : correspondence — every measure of the catalogue (Model/NsiMeasures.le
 search : the property itself on the implementation: measure on net vs on
          net.splitted_copy(node, proportion) (global equal, per node equal + twin = v,
          pairwise equal on untouched pairs), iterated splits.
+round 3: `nsi_betweenness_split` (n.s.i. shortest-path betweenness, at the level of its
+         definition by weighted counts of shortest walks, all nodes incl. both twins, arbitrary
+         source / target sets); three-way exact tie definition = model of the Cython kernel =
+         implementation (nsi_betweenness, nsi_interregional_betweenness, nsi_cross_betweenness)
+         on graphs, split copies and the model's own split, with the model's own breadth-first
+         distances; double splits against the model; every non-default argument of the
+         remaining n.s.i. methods in the oracle; histories on live objects (cached values of
+         the original must not change, weights re-assigned, cross measures first); Geo/Climate
+         networks; caller arrays in several dtypes / layouts; hub and rescaled weights.
 """
 import contextlib
 import io
@@ -71,7 +80,7 @@ def request(kind, net, Wroot, g0, g1, extra=""):
             f"{enc_bools(g0)} {enc_bools(g1)} " + (";".join(",".join(map(str, r)) for r in D) or "-"))
 
 
-def impl_values(net, directed, g0, g1, all_reach):
+def impl_values(net, directed, g0, g1, all_reach, heavy=True, variants=True):
     """name -> list of floats (arity 0: 1 value, 1: n values, 2: n*n row-major) | None"""
     from pyunicorn.core import InteractingNetworks
     n = net.N
@@ -125,17 +134,40 @@ def impl_values(net, directed, g0, g1, all_reach):
         put("nsi_global_efficiency", net.nsi_global_efficiency)
         # measures outside the expression language: no theorem, invariance checked by the oracle
         put("nsi_betweenness@oracle", net.nsi_betweenness)
-        if all_reach and n >= 3:
+        put("nsi_laplacian@untouched", net.nsi_laplacian)
+        if has_links and heavy:
+            put("nsi_spreading@oracle", net.nsi_spreading)
+            put("nsi_spreading_alpha@oracle", lambda: net.nsi_spreading(alpha=0.125))
+        if all_reach and n >= 3 and heavy:
             put("nsi_eigenvector_centrality@oracle", net.nsi_eigenvector_centrality)
             put("nsi_newman_betweenness@oracle", net.nsi_newman_betweenness)
             put("nsi_arenas_betweenness@oracle", net.nsi_arenas_betweenness)
-        if n >= 3:
+        if all_reach and n >= 3 and heavy and variants:
+            # every non-default argument pattern of the Arenas-type betweenness
+            put("nsi_arenas_betweenness_incl@oracle",
+                lambda: net.nsi_arenas_betweenness(exclude_neighbors=False))
+            put("nsi_arenas_betweenness_twin@oracle",
+                lambda: net.nsi_arenas_betweenness(stopping_mode="twinness"))
+            put("nsi_arenas_betweenness_incl_twin@oracle",
+                lambda: net.nsi_arenas_betweenness(exclude_neighbors=False,
+                                                   stopping_mode="twinness"))
+        if n >= 3 and heavy:
             # non-default variant documented as n.s.i., also on networks with several (small)
             # components, which are treated one by one
             put("nsi_newman_betweenness_ends@oracle",
                 lambda: net.nsi_newman_betweenness(add_local_ends=True))
             if not all_reach:
                 put("nsi_newman_betweenness_comp@oracle", net.nsi_newman_betweenness)
+            if not all_reach and variants:
+                # Arenas-type betweenness component by component, every argument pattern
+                put("nsi_arenas_betweenness_comp@oracle", net.nsi_arenas_betweenness)
+                put("nsi_arenas_betweenness_incl_comp@oracle",
+                    lambda: net.nsi_arenas_betweenness(exclude_neighbors=False))
+                put("nsi_arenas_betweenness_twin_comp@oracle",
+                    lambda: net.nsi_arenas_betweenness(stopping_mode="twinness"))
+                put("nsi_arenas_betweenness_incl_twin_comp@oracle",
+                    lambda: net.nsi_arenas_betweenness(exclude_neighbors=False,
+                                                       stopping_mode="twinness"))
         L1 = [i for i in range(n) if g0[i]]
         L2 = [i for i in range(n) if g1[i]]
         if L1 and L2:
@@ -149,6 +181,17 @@ def impl_values(net, directed, g0, g1, all_reach):
                 return full
             put("nsi_cross_degree", lambda: expand(inet.nsi_cross_degree(L1, L2), L1))
             put("nsi_internal_degree", lambda: expand(inet.nsi_internal_degree(L1), L1))
+            put("nsi_internal_local_clustering",
+                lambda: expand(inet.nsi_internal_local_clustering(L1), L1))
+            if all_reach:
+                put("nsi_internal_closeness_centrality",
+                    lambda: expand(inet.nsi_internal_closeness_centrality(L1), L1))
+            # sources = group 0, targets = group 1, through all three public wrappers
+            put("nsi_cross_betweenness@oracle", lambda: inet.nsi_cross_betweenness(L1, L2))
+            put("nsi_interregional_betweenness@oracle",
+                lambda: net.nsi_interregional_betweenness(sources=L1, targets=L2))
+            put("nsi_betweenness_st@oracle",
+                lambda: net.nsi_betweenness(sources=np.array(L2), targets=tuple(L1)))
             put("nsi_cross_mean_degree", lambda: inet.nsi_cross_mean_degree(L1, L2))
             put("nsi_cross_edge_density", lambda: inet.nsi_cross_edge_density(L1, L2))
             put("nsi_cross_local_clustering",
@@ -171,14 +214,14 @@ def parse_model(ans):
     return out
 
 
-def close(a, b, tol=1e-9):
+def close(a, b, tol=1e-9, floor=1.0):
     if a != a:          # NaN placeholder (node outside the group): not compared
         return True
     if b != b:
         return False
     if abs(a) == float("inf") or abs(b) == float("inf"):
         return a == b
-    return abs(a - b) <= tol * max(1.0, abs(a), abs(b))
+    return abs(a - b) <= tol * max(floor, abs(a), abs(b))
 
 
 def gen_graphs(ctx):
@@ -217,9 +260,28 @@ def gen_graphs(ctx):
             for (i, j), b in zip(pairs, bits):
                 A[i, j] = b
             out.append((A, True))
+    # several small components (sizes 1..4: isolated nodes, single links, paths, triangles,
+    # stars, cliques) -- the per-component code paths of the random-walk betweennesses
+    for _ in range(6 if quick else 60):
+        sizes = [rng.choice([1, 1, 2, 2, 3, 3, 4]) for _ in range(rng.randrange(2, 5))]
+        n = sum(sizes)
+        A = np.zeros((n, n), dtype=int)
+        o = 0
+        for sz in sizes:
+            kind = rng.choice(["path", "clique", "star"])
+            for i in range(sz):
+                for j in range(i):
+                    if (kind == "clique" or (kind == "path" and i == j + 1)
+                            or (kind == "star" and j == 0)):
+                        A[o + i, o + j] = A[o + j, o + i] = 1
+            o += sz
+        perm = list(range(n))
+        rng.shuffle(perm)
+        A = A[perm][:, perm]
+        out.append((A, False))
     # random larger
     for _ in range(12 if quick else 150):
-        n = rng.randrange(6, 13 if quick else 25)
+        n = rng.randrange(6, 13 if quick else 19)
         p = rng.choice([0.15, 0.3, 0.6])
         directed = rng.random() < 0.3
         A = np.zeros((n, n), dtype=int)
@@ -233,13 +295,73 @@ def gen_graphs(ctx):
     return out
 
 
+def as_caller_arrays(rng, A, w):
+    """the same adjacency / weights handed over in another dtype / memory layout (values are
+    small integers / dyadic numbers, exactly representable in every one of them)"""
+    import scipy.sparse as sp
+    ka = rng.choice(["int", "int8", "bool", "float32", "fortran", "strided", "csr", "lil", "list"])
+    if ka == "int":
+        A2 = A
+    elif ka in ("int8", "bool", "float32"):
+        A2 = A.astype(ka)
+    elif ka == "fortran":
+        A2 = np.asfortranarray(A.astype("int16"))
+    elif ka == "strided":
+        big = np.zeros((2 * A.shape[0], 2 * A.shape[1]), dtype=int)
+        big[::2, ::2] = A
+        A2 = big[::2, ::2]
+    elif ka == "csr":
+        A2 = sp.csr_matrix(A)
+    elif ka == "lil":
+        A2 = sp.lil_matrix(A)
+    else:
+        A2 = A.tolist()
+    kw = rng.choice(["float64", "float32", "strided", "list"])
+    if kw == "float64":
+        w2 = w
+    elif kw == "float32":
+        w2 = w.astype(kw)
+    elif kw == "strided":
+        big = np.zeros(2 * len(w))
+        big[::2] = w
+        w2 = big[::2]
+    else:
+        w2 = [float(x) for x in w]
+    return A2, w2, ka, kw
+
+
+def betw_impl(net, S, T):
+    """n.s.i. betweenness through its public wrappers; S, T boolean lists (None = all)"""
+    from pyunicorn.core import InteractingNetworks
+    if S is None:
+        return [np.asarray(quiet(net.nsi_betweenness), dtype=float).tolist()]
+    L1 = [i for i, x in enumerate(S) if x]
+    L2 = [i for i, x in enumerate(T) if x]
+    inet = InteractingNetworks(adjacency=net.adjacency, node_weights=net.node_weights,
+                               silence_level=3)
+    return [np.asarray(quiet(net.nsi_betweenness, sources=L1, targets=L2), dtype=float).tolist(),
+            np.asarray(quiet(net.nsi_interregional_betweenness, sources=L1, targets=L2),
+                       dtype=float).tolist(),
+            np.asarray(quiet(inet.nsi_cross_betweenness, L1, L2), dtype=float).tolist()]
+
+
+def parse_betw(ans):
+    out = {}
+    for part in ans.split("|"):
+        name, _, vals = part.partition("=")
+        out[name] = vals
+    return out
+
+
 def run(ctx):
     from pyunicorn.core import Network
     rng = ctx.rng
     quick = ctx.tier == "quick"
     ctx.rule = ("all labelled undirected graphs on <=4 (thorough: <=5, sampled) nodes, directed on "
-                "<=3 (<=4), random 6..12 (..24) nodes; dyadic positive weights, cube link "
-                "attributes, every node x proportion in {1/4,1/2,3/4} (quick: sampled), random "
+                "<=3 (<=4), random 6..12 (..18) nodes, unions of small components; dyadic positive "
+                "weights (also rescaled by powers of two), cube link attributes, every node x "
+                "proportion in {1/4,1/2,3/4} up to 3 nodes, every node x one proportion up to 5, "
+                "three nodes beyond (quick: sampled), random "
                 "bipartitions; distinct = distinct (graph, weights, node, proportion); non-trivial "
                 "= graph has a link and >= 3 nodes")
     ctx.proofs()
@@ -258,7 +380,16 @@ def run(ctx):
                     Wroot[i, j] = rng.choice([1, 2, 3])
                     if not directed:
                         Wroot[j, i] = Wroot[i, j]
-        net = Network(adjacency=A, directed=directed, node_weights=w, silence_level=3)
+        # extreme-but-exact rescaling of all node weights (every n.s.i. measure is homogeneous)
+        scaled = 0          # the power of two all weights are multiplied with (0: none)
+        if gi % 7 == 3:
+            scaled = 2.0 ** rng.choice([-30, 30, -12, 20])
+            w = w * scaled
+            ctx.count("weights-rescaled-by-power-of-two")
+        A_in, w_in, ka, kw = as_caller_arrays(rng, A, w)
+        ctx.count(f"adjacency-as-{ka}")
+        ctx.count(f"weights-as-{kw}")
+        net = Network(adjacency=A_in, directed=directed, node_weights=w_in, silence_level=3)
         net.set_link_attribute("w", Wroot ** 3)
         g0 = [rng.random() < 0.5 for _ in range(n)]
         if n >= 2:
@@ -269,12 +400,33 @@ def run(ctx):
         nodes = list(range(n))
         if quick and n > 3:
             nodes = rng.sample(nodes, 2)
+        elif n > 5:
+            nodes = rng.sample(nodes, 3)        # thorough: large graphs, three nodes
         props = [Fraction(1, 4), Fraction(1, 2), Fraction(3, 4)]
-        if quick:
-            props = [rng.choice(props)]
-        base_impl = impl_values(net, directed, g0, g1, all_reach)
+        if quick or n > 3:
+            props = [rng.choice(props)]         # (a fresh proportion per graph)
+        variants = quick or gi % 3 == 0
+        base_impl = impl_values(net, directed, g0, g1, all_reach, variants=variants)
         reqs.append(request("eval", net, Wroot, g0, g1, extra=f"{enc_rat(TW)} "))
         meta.append(("eval", gi, None, None, base_impl, n))
+        # n.s.i. shortest-path betweenness: definition (Lean) = kernel model (Lean) =
+        # implementation, for all sources/targets and for random (overlapping) subsets
+        do_betw = (not directed) and n <= 9
+        ST = [(None, None)]
+        if do_betw:
+            S = [rng.random() < 0.6 for _ in range(n)]
+            T = [rng.random() < 0.6 for _ in range(n)]
+            S[rng.randrange(n)] = True
+            T[rng.randrange(n)] = True
+            ST.append((S, T))
+            b_bases = []
+            for SS, TT in ST:
+                ones = [True] * n
+                b_bases.append(betw_impl(net, SS, TT))
+                reqs.append(request("betw", net, Wroot, SS or ones, TT or ones))
+                meta.append(("betw", gi, None, None, b_bases[-1], n))
+                ctx.count("betweenness-correspondence")
+            nsplit = 0
         for v in nodes:
             for p in props:
                 nontriv = n >= 3 and A.sum() > 0
@@ -292,9 +444,10 @@ def run(ctx):
                 sWroot[n, :n] = Wroot[v, :]
                 sD = quiet(sp.path_lengths)
                 s_reach = not np.isinf(sD).any()
-                sp_impl = impl_values(sp, directed, sg0, sg1, s_reach)
+                sp_impl = impl_values(sp, directed, sg0, sg1, s_reach, variants=variants)
                 # ---- oracle: the property on the implementation -------------------------
-                oracle(ctx, base_impl, sp_impl, n, v, p, A, directed, w, Wroot, g0)
+                oracle(ctx, base_impl, sp_impl, n, v, p, A, directed, w, Wroot, g0,
+                       vec_rel=scaled)
                 # ---- correspondence requests --------------------------------------------
                 # (a) the model's split vs splitted_copy (adjacency, weights, attribute, groups)
                 reqs.append(request("split", net, Wroot, g0, g1, extra=f"{v} {enc_rat(p)} "))
@@ -315,6 +468,101 @@ def run(ctx):
                 reqs.append(request("evalsplit", net, Wroot, g0, g1,
                                     extra=f"{enc_rat(TW)} {v} {enc_rat(p)} "))
                 meta.append(("evalsplit", gi, v, p, sp_impl, n + 1))
+                if do_betw:
+                    nsplit += 1
+                    for ist, (SS, TT) in enumerate(ST):
+                        if not quick and (nsplit + ist) % 2:
+                            continue
+                        ones, ones1 = [True] * n, [True] * (n + 1)
+                        sS = None if SS is None else SS + [SS[v]]
+                        sT = None if TT is None else TT + [TT[v]]
+                        b_base, b_spl = b_bases[ist], betw_impl(sp, sS, sT)
+                        ctx.count("betweenness-correspondence-on-split")
+                        reqs.append(request("betw", sp, sWroot, sS or ones1, sT or ones1))
+                        meta.append(("betw", gi, v, p, b_spl, n + 1))
+                        reqs.append(request("betwsplit", net, Wroot, SS or ones, TT or ones,
+                                            extra=f"{v} {enc_rat(p)} "))
+                        meta.append(("betw", gi, v, p, b_spl, n + 1))
+                        if SS is not None:
+                            names = ("nsi_betweenness(sources,targets)@oracle",
+                                     "nsi_interregional_betweenness(sources,targets)@oracle",
+                                     "nsi_cross_betweenness(sources,targets)@oracle")
+                            oracle(ctx, dict(zip(names, b_base)), dict(zip(names, b_spl)), n, v, p,
+                                   A, directed, w, Wroot, g0,
+                                   {"sources": [i for i in range(n) if SS[i]],
+                                    "targets": [i for i in range(n) if TT[i]]}, vec_rel=scaled)
+        # ---- two successive splits against the model's split of a split (`eval_splits`) ------
+        if 2 <= n <= 8 and gi % 3 == 1:
+            v1, v2 = rng.randrange(n), rng.randrange(n + 1)
+            p1, p2 = (rng.choice([Fraction(1, 4), Fraction(1, 2), Fraction(3, 4)]) for _ in "12")
+            sp1 = quiet(net.splitted_copy, node=v1, proportion=float(p1))
+            # second split also through the default / negative node index
+            if v2 == n:
+                sp2 = quiet(sp1.splitted_copy, proportion=float(p2))
+            else:
+                sp2 = quiet(sp1.splitted_copy, node=v2 - (n + 1), proportion=float(p2))
+            orig = list(range(n)) + [v1]
+            orig = orig + [orig[v2]]
+            h0 = g0 + [g0[v1]]
+            h0 = h0 + [h0[v2]]
+            h1 = [not x for x in h0]
+            r2 = not np.isinf(quiet(sp2.path_lengths)).any()
+            sp2_impl = impl_values(sp2, directed, h0, h1, r2, variants=variants)
+            ex = f"{v1} {enc_rat(p1)} {v2} {enc_rat(p2)} "
+            reqs.append(request("split2", net, Wroot, g0, g1, extra=ex))
+            try:
+                sW2 = sp2.link_attribute("w")
+            except KeyError:
+                sW2 = np.zeros((n + 2, n + 2))
+            meta.append(("split", gi, (v1, v2), (p1, p2),
+                         f"{n + 2} {enc_boolmat(sp2.adjacency)} "
+                         f"{enc_rats([Fraction(float(x)) for x in sp2.node_weights])} "
+                         f"{enc_ratmat([[Fraction(int(round(x))) for x in r] for r in sW2])} "
+                         f"{enc_bools(h0)} {enc_bools(h1)}", n))
+            reqs.append(request("evalsplit2", net, Wroot, g0, g1, extra=f"{enc_rat(TW)} " + ex))
+            meta.append(("evalsplit2", gi, (v1, v2), (p1, p2), sp2_impl, n + 2))
+            if do_betw:
+                SS, TT = ST[-1]
+                s2S = SS + [SS[v1]]
+                s2S = s2S + [s2S[v2]]
+                s2T = TT + [TT[v1]]
+                s2T = s2T + [s2T[v2]]
+                reqs.append(request("betwsplit2", net, Wroot, SS, TT, extra=ex))
+                meta.append(("betw", gi, (v1, v2), (p1, p2), betw_impl(sp2, s2S, s2T), n + 2))
+            ctx.count("double-split")
+            oracle_map(ctx, base_impl, sp2_impl, n, orig, A, directed, w,
+                       {"splits": [[v1, str(p1)], [v2, str(p2)]], "group0": g0}, vec_rel=scaled)
+        # ---- the original object after its copies were split and queried: nothing changed ---
+        if gi % 3 == 0:
+            again = impl_values(net, directed, g0, g1, all_reach, variants=variants)
+            ctx.count("original-requeried-after-splits")
+            for name, b in base_impl.items():
+                a2 = again.get(name)
+                same = (isinstance(b, tuple) and b == a2) or (
+                    not isinstance(b, tuple) and not isinstance(a2, tuple) and a2 is not None
+                    and len(a2) == len(b) and all(
+                        close(x, y, 1e-6 if "@oracle" in name else 1e-13,
+                              vec_floor(b, a2, scaled, name)) or (x != x and y != y)
+                        for x, y in zip(b, a2)))
+                if not same:
+                    ctx.fail({"kind": "original-changed-by-splitting", "measure": name.split("@")[0]},
+                             f"{name} of the ORIGINAL network changes after splitted_copy() and "
+                             f"queries on the copies: {b} -> {a2}",
+                             {"adjacency": A.tolist(), "directed": directed,
+                              "node_weights": w.tolist(), "measure": name})
+            intact = (np.array_equal(np.asarray(net.adjacency), A)
+                      and np.array_equal(np.asarray(net.node_weights, dtype=float),
+                                         np.asarray(w, dtype=float))
+                      and (A.sum() == 0 or np.array_equal(net.link_attribute("w"), Wroot ** 3)))
+            if not intact:
+                ctx.fail({"kind": "original-changed-by-splitting", "measure": "state"},
+                         "adjacency / node weights / link attribute of the original network "
+                         "changed after splitted_copy()",
+                         {"adjacency": A.tolist(), "directed": directed,
+                          "node_weights": w.tolist()})
+        # ---- histories on live objects ----------------------------------------------------
+        if not directed and n >= 2 and gi % 4 in (0, 2):
+            history(ctx, rng, A, w, g0, gi % 4 == 2)
         # iterated splits (oracle only)
         if n >= 3 and not directed and gi % 5 == 0:
             cur = net
@@ -330,11 +578,29 @@ def run(ctx):
                              f"{nm} changes under three successive splits: {a} -> {b}",
                              {"adjacency": A.tolist(), "weights": w.tolist()})
     model = common.driver(ctx.pid, reqs)
-    bad_split, bad_eval, nvals = [], [], 0
+    bad_split, bad_eval, bad_betw, nvals, nbetw = [], [], [], 0, 0
     for ans, (kind, gi, v, p, impl, n) in zip(model, meta):
         if kind == "split":
             if ans != impl:
                 bad_split.append(f"graph#{gi} v={v} p={p}: model={ans[:160]} impl={impl[:160]}")
+            continue
+        if kind == "betw":
+            mb = parse_betw(ans)
+            nbetw += 1
+            if mb.get("distok") != "1":
+                bad_betw.append(f"graph#{gi} split={v},{p}: igraph's path lengths differ from the "
+                                f"model's breadth-first distances")
+            if not (mb.get("def") == mb.get("defbfs") == mb.get("kernel")):
+                bad_betw.append(f"graph#{gi} split={v},{p}: definition {mb.get('def')} / with BFS "
+                                f"distances {mb.get('defbfs')} / kernel model {mb.get('kernel')}")
+                continue
+            mvals = [] if mb["def"] == "-" else [Fraction(x) for x in mb["def"].split(",")]
+            for ivals in impl:
+                if len(ivals) != len(mvals) or not all(
+                        close(a, float(b)) for a, b in zip(ivals, mvals)):
+                    bad_betw.append(f"graph#{gi} split={v},{p}: impl={ivals} model={mb['def']}")
+                    break
+                nvals += len(ivals)
             continue
         mv = parse_model(ans)
         for name, ivals in impl.items():
@@ -357,10 +623,31 @@ def run(ctx):
     ctx.obligation(f"correspondence: catalogue expressions (exact rationals) == implementation "
                    f"on graphs, on split copies and on the model's own split ({nvals} values)",
                    "correspondence", not bad_eval, "\n".join(bad_eval[:8]))
+    ctx.obligation(f"correspondence: n.s.i. betweenness -- definition by weighted shortest-walk "
+                   f"counts (exact) == model of the Cython kernel (exact) == nsi_betweenness / "
+                   f"nsi_interregional_betweenness / nsi_cross_betweenness, on graphs, split "
+                   f"copies, the model's split and double split; igraph distances == model BFS "
+                   f"({nbetw} requests)", "correspondence", not bad_betw, "\n".join(bad_betw[:6]))
     ctx.extra["values_compared"] = nvals
+    extras(ctx)
 
 
-def oracle(ctx, base, spl, n, v, p, A, directed, w, Wroot, g0):
+def vec_floor(b, s, vec_rel, name=""):
+    """on graphs whose weights were rescaled by a power of two `c` (= vec_rel) the measures
+    scale with them: entries are compared relative to the largest entry of the vector, and
+    the betweenness-type measures (homogeneous of degree 2 in the weights, computed with
+    cancellation) relative to c**2, which is where their rounding noise lives"""
+    if not vec_rel:
+        return 1.0
+    fin = [abs(x) for x in list(b) + list(s) if x == x and abs(x) != float("inf")]
+    fl = max([1.0] + fin)
+    if vec_rel > 1 and "betweenness" in name:
+        fl = max(fl, float(vec_rel) ** 2)
+    return fl
+
+
+def oracle(ctx, base, spl, n, v, p, A, directed, w, Wroot, g0, extra_replay=None,
+           vec_rel=False):
     """global equal; per-node equal on untouched nodes and twin = v; pairwise equal on
     untouched pairs"""
     for name, b in base.items():
@@ -370,6 +657,11 @@ def oracle(ctx, base, spl, n, v, p, A, directed, w, Wroot, g0):
         replay = {"measure": name, "adjacency": A.tolist(), "directed": directed,
                   "node_weights": w.tolist(), "link_attribute_cuberoot": Wroot.tolist(),
                   "group0": g0, "node": v, "proportion": str(p)}
+        if n > 60:      # hub stress: the edge list is enough
+            replay["adjacency"] = [[int(i), int(j)] for i, j in zip(*np.nonzero(A)) if i < j]
+            replay.pop("link_attribute_cuberoot")
+        if extra_replay:
+            replay.update(extra_replay)
         if isinstance(b, tuple) or isinstance(s, tuple):
             if isinstance(b, tuple) != isinstance(s, tuple) and A.sum() > 0:
                 ctx.fail({"kind": "raises-after-split", "measure": name},
@@ -378,23 +670,232 @@ def oracle(ctx, base, spl, n, v, p, A, directed, w, Wroot, g0):
             continue
         ok = True
         tol = 1e-6 if "@oracle" in name else 1e-9      # iterative solvers
+        fl = vec_floor(b, s, vec_rel, name)
         if len(b) == 1:
             ok = close(b[0], s[0], tol) or (b[0] != b[0] and s[0] != s[0])
         elif len(b) == n:
             for i in range(n):
-                if not (close(b[i], s[i], tol) or (b[i] != b[i] and s[i] != s[i])):
+                if not (close(b[i], s[i], tol, fl) or (b[i] != b[i] and s[i] != s[i])):
                     ok = False
-            if not (close(b[v], s[n], tol) or (b[v] != b[v] and s[n] != s[n])):
+            if not (close(b[v], s[n], tol, fl) or (b[v] != b[v] and s[n] != s[n])):
                 ok = False
         elif len(b) == n * n:
             for i in range(n):
                 for j in range(n):
+                    if "@untouched" in name and (i == v or j == v):
+                        continue
                     x, y = b[i * n + j], s[i * (n + 1) + j]
-                    if not (close(x, y) or (x != x and y != y)):
+                    if not (close(x, y, 1e-9, fl) or (x != x and y != y)):
                         ok = False
         if not ok:
             replay.update(on_net=b, on_split=s)
             sig = {"kind": "not-split-invariant", "measure": name.split("@")[0],
-                   "input_class": "unreachable-pair" if "@" in name else "any"}
+                   "input_class": "unreachable-pair" if name.endswith("@unreachable") else "any"}
             ctx.fail(sig, f"{name} differs between the network and its split copy "
                           f"(node {v}, proportion {p})", replay)
+
+
+def oracle_map(ctx, base, spl, n, orig, A, directed, w, extra, vec_rel=False):
+    """several splits: node k of the final network descends from node orig[k] of the original:
+    global values equal, per-node values equal along `orig`, pairwise values equal on pairs of
+    nodes that were never split"""
+    m = len(orig)
+    touched = {orig[k] for k in range(n, m)}
+    for name, b in base.items():
+        s = spl.get(name)
+        if s is None or isinstance(b, tuple) or isinstance(s, tuple):
+            continue
+        tol = 1e-6 if "@oracle" in name else 1e-9
+        fl = vec_floor(b, s, vec_rel, name) if len(b) > 1 else 1.0
+        eq = lambda x, y: close(x, y, tol, fl) or (x != x and y != y)   # noqa
+        ok = True
+        if len(b) == 1:
+            ok = eq(b[0], s[0])
+        elif len(b) == n:
+            ok = all(eq(b[orig[k]], s[k]) for k in range(m))
+        elif len(b) == n * n:
+            ok = all(eq(b[i * n + j], s[i * m + j]) for i in range(n) for j in range(n)
+                     if i not in touched and j not in touched)
+        if not ok:
+            replay = {"measure": name, "adjacency": A.tolist(), "directed": directed,
+                      "node_weights": w.tolist(), "on_net": b, "on_split": s}
+            replay.update(extra)
+            ctx.fail({"kind": "not-split-invariant", "measure": name.split("@")[0],
+                      "input_class": ("unreachable-pair" if name.endswith("@unreachable")
+                                      else "several-splits")},
+                     f"{name} differs between the network and its copy after the splits "
+                     f"{extra.get('splits')}", replay)
+
+
+def history(ctx, rng, A, w, g0, reassign):
+    """the property on objects with a past.  (1) An InteractingNetworks object that answered
+    the cross measures first (they work on the cached path-length matrix) and then the
+    distance-based n.s.i. measures, every call twice; (2) a Network whose node weights were
+    re-assigned after the measures had been cached.  The split copy is taken from the live
+    object; the invariance must hold between the live object and its copy."""
+    from pyunicorn.core import InteractingNetworks
+    n = A.shape[0]
+    L1 = [i for i in range(n) if g0[i]]
+    L2 = [i for i in range(n) if not g0[i]]
+    v = rng.randrange(n)
+    p = rng.choice([0.25, 0.5, 0.75])
+
+    def calls(obj, l1, l2):
+        c = {"nsi_cross_average_path_length": lambda: obj.nsi_cross_average_path_length(l1, l2),
+             "nsi_cross_closeness_centrality": lambda: obj.nsi_cross_closeness_centrality(l1, l2),
+             "nsi_internal_closeness_centrality":
+                 lambda: obj.nsi_internal_closeness_centrality(l1),
+             "nsi_closeness": obj.nsi_closeness,
+             "nsi_average_path_length": obj.nsi_average_path_length,
+             "nsi_harmonic_closeness": obj.nsi_harmonic_closeness,
+             "nsi_exponential_closeness": obj.nsi_exponential_closeness,
+             "nsi_global_efficiency": obj.nsi_global_efficiency,
+             "nsi_degree": obj.nsi_degree,
+             "nsi_local_clustering": obj.nsi_local_clustering,
+             "nsi_max_neighbors_degree": obj.nsi_max_neighbors_degree,
+             "nsi_betweenness": obj.nsi_betweenness,
+             "nsi_interregional_betweenness":
+                 lambda: obj.nsi_interregional_betweenness(sources=l1, targets=l2),
+             "nsi_cross_betweenness": lambda: obj.nsi_cross_betweenness(l1, l2),
+             "nsi_cross_local_clustering": lambda: obj.nsi_cross_local_clustering(l1, l2),
+             "nsi_cross_degree": lambda: obj.nsi_cross_degree(l1, l2)}
+        return c
+
+    def run_all(obj, l1, l2, first):
+        c = calls(obj, l1, l2)
+        order = [k for k in c if k not in first]
+        rng.shuffle(order)
+        order = list(first) + order
+        r1 = {k: np.asarray(quiet(c[k]), dtype=float).reshape(-1).tolist() for k in order}
+        rng.shuffle(order)
+        r2 = {k: np.asarray(quiet(c[k]), dtype=float).reshape(-1).tolist() for k in order}
+        return r1, r2
+
+    if reassign:
+        other = np.array([rng.choice([0.5, 1.0, 3.0, 8.0]) for _ in range(n)])
+        live = InteractingNetworks(adjacency=A, node_weights=other, silence_level=3)
+        run_all(live, L1, L2, ())                   # fill the caches with the old weights
+        live.node_weights = w
+        kind = "weights-reassigned"
+    else:
+        live = InteractingNetworks(adjacency=A, node_weights=w, silence_level=3)
+        kind = "cross-measures-first"
+    ctx.count("history:" + kind)
+    first = ("nsi_cross_average_path_length", "nsi_cross_closeness_centrality")
+    b1, b2 = run_all(live, L1, L2, first)
+    spn = quiet(live.splitted_copy, node=v, proportion=p)
+    sp = InteractingNetworks(adjacency=spn.adjacency, node_weights=spn.node_weights,
+                             silence_level=3)
+    sL1 = L1 + ([n] if g0[v] else [])
+    sL2 = L2 + ([] if g0[v] else [n])
+    s1, s2 = run_all(sp, sL1, sL2, first)
+    reach = not np.isinf(quiet(live.path_lengths)).any()
+    replay = {"adjacency": A.tolist(), "node_weights": w.tolist(), "group0": g0, "node": v,
+              "proportion": p, "history": kind}
+
+    def full(vals, L, size):
+        out = [float("nan")] * size
+        for k, i in enumerate(L):
+            out[i] = vals[k]
+        return out
+    for name in b1:
+        same = lambda x, y: len(x) == len(y) and all(        # noqa
+            close(a, b, 1e-13) or (a != a and b != b) for a, b in zip(x, y))
+        if not same(b1[name], b2[name]) or not same(s1[name], s2[name]):
+            ctx.fail({"kind": "history", "measure": name, "history": kind},
+                     f"{name} returns a different value when asked a second time on the same "
+                     f"object ({kind})", dict(replay, measure=name, first=b1[name], second=b2[name]))
+            continue
+        if not reach and name in ("nsi_cross_average_path_length",
+                                  "nsi_cross_closeness_centrality",
+                                  "nsi_internal_closeness_centrality"):
+            continue        # known findings (N - 1 for unreachable pairs)
+        if not L1 or not L2:
+            if "cross" in name or "interregional" in name:
+                continue
+        b, s = b2[name], s2[name]
+        if len(b) == len(L1) and len(s) == len(sL1) and name not in (
+                "nsi_closeness", "nsi_degree") and ("cross" in name or "internal" in name) \
+                and name != "nsi_cross_betweenness":
+            b, s = full(b, L1, n), full(s, sL1, n + 1)
+        ok = True
+        if len(b) == 1:
+            ok = close(b[0], s[0]) or (b[0] != b[0] and s[0] != s[0])
+        else:
+            for i in range(n):
+                if not (close(b[i], s[i]) or (b[i] != b[i] and s[i] != s[i])):
+                    ok = False
+            if not (close(b[v], s[n]) or (b[v] != b[v] and s[n] != s[n])):
+                ok = False
+        if not ok:
+            ctx.fail({"kind": "history", "measure": name, "history": kind},
+                     f"{name} on an object with a past ({kind}) differs from its value on the "
+                     f"split copy (node {v}, proportion {p})",
+                     dict(replay, measure=name, on_net=b, on_split=s))
+
+
+def extras(ctx):
+    """Geo / climate networks (node weights from the grid), a hub whose degree exceeds 181
+    (products of counts leave int16), and the default arguments of splitted_copy"""
+    from pyunicorn.core import GeoNetwork, GeoGrid, Network
+    from pyunicorn.climate import ClimateNetwork
+    rng = ctx.rng
+    quick = ctx.tier == "quick"
+    for rep in range(3 if quick else 12):
+        n = rng.randrange(4, 9)
+        lat = np.array([rng.choice([-75., -60., -30., 0., 15., 45., 60., 82.5]) for _ in range(n)])
+        lon = np.array([rng.choice([0., 30., 90., 180., 270.]) for _ in range(n)])
+        grid = GeoGrid(time_seq=np.arange(3.), lat_seq=lat, lon_seq=lon, silence_level=3)
+        nwt = rng.choice(["surface", "irrigation", None])
+        if rep % 2 == 0:
+            A = np.zeros((n, n), dtype=int)
+            for i in range(n):
+                for j in range(i):
+                    A[i, j] = A[j, i] = rng.random() < 0.5
+            gnet = GeoNetwork(grid=grid, adjacency=A, node_weight_type=nwt, silence_level=3)
+            cls = "GeoNetwork"
+        else:
+            sim = np.eye(n)
+            for i in range(n):
+                for j in range(i):
+                    sim[i, j] = sim[j, i] = rng.choice([0.125, 0.25, 0.5, 0.75, 0.875])
+            gnet = ClimateNetwork(grid=grid, similarity_measure=sim, threshold=0.5,
+                                  node_weight_type=nwt, silence_level=3)
+            A = np.array(gnet.adjacency)
+            cls = "ClimateNetwork"
+        ctx.count(f"{cls}:{nwt}")
+        w = np.array(gnet.node_weights, dtype=float)
+        g0 = [rng.random() < 0.5 for _ in range(n)]
+        g0[0], g0[1] = True, False
+        g1 = [not x for x in g0]
+        reach = not np.isinf(quiet(gnet.path_lengths)).any()
+        base = impl_values(gnet, False, g0, g1, reach)
+        v = rng.randrange(n)
+        p = rng.choice([Fraction(1, 4), Fraction(1, 2), Fraction(3, 4)])
+        sp = quiet(gnet.splitted_copy, node=v, proportion=float(p))
+        s_reach = not np.isinf(quiet(sp.path_lengths)).any()
+        spl = impl_values(sp, False, g0 + [g0[v]], g1 + [g1[v]], s_reach)
+        ctx.case((cls, A.tobytes().hex(), w.tobytes().hex(), v, str(p)), A.sum() > 0, None)
+        oracle(ctx, base, spl, n, v, p, A, False, w, np.zeros((n, n)), g0,
+               {"class": cls, "node_weight_type": nwt, "lat": lat.tolist()})
+    # hub: a star with more than 181 leaves plus a few extra links
+    for rep in range(1 if quick else 3):
+        n = rng.choice([190, 200, 260])
+        A = np.zeros((n, n), dtype=int)
+        A[0, 1:] = A[1:, 0] = 1
+        for _ in range(40):
+            i, j = rng.randrange(1, n), rng.randrange(1, n)
+            if i != j:
+                A[i, j] = A[j, i] = 1
+        w = np.array([rng.choice([0.5, 1.0, 1.5, 2.0]) for _ in range(n)])
+        g0 = [i % 2 == 0 for i in range(n)]
+        g1 = [not x for x in g0]
+        net = Network(adjacency=A, node_weights=w, silence_level=3)
+        base = impl_values(net, False, g0, g1, True, heavy=False)
+        for v in (0, rng.randrange(1, n)):
+            p = Fraction(1, 4)
+            sp = quiet(net.splitted_copy, node=v, proportion=float(p))
+            spl = impl_values(sp, False, g0 + [g0[v]], g1 + [g1[v]], True, heavy=False)
+            ctx.count("hub-degree>181")
+            ctx.case(("hub", n, A.tobytes().hex()[:64], v), True, None)
+            oracle(ctx, base, spl, n, v, p, A, False, w, np.zeros((n, n)), g0, {"hub": True})
